@@ -7,8 +7,6 @@ checks (small cases) that the LTS of C07/Model.v has a run with the same observa
 
 Known-finding classes (KNOWN_FINDINGS.txt; classify() returns a class only when Coq confirms, via Exec.spec_wo_*, that
 the class' clause is the ONLY failing one):
-  reducer_write_then_panic  a panic raised after the reducer's value was handed to the caller is dropped (deterministic;
-                            replay corpus/C07/reducer_write_then_panic.json; Props c07_write_then_panic_refuted)
   send_on_closed            finish() between guardedWriter's check and its send on `output`: the runtime panic "send on
                             closed channel" is re-raised in the caller (rare; Props c07_send_on_closed_refuted)
   ctx_select_race           context done before the call, the caller's select takes the closed output (rare;
@@ -190,9 +188,13 @@ def gen_panic(rng, tier):
         rtake = rng.choice([-1, -1, 0, 1, 2])
         pcode[0] += 1
         rafter = [{"op": "panic", "k": pcode[0]}]
-    elif rng.random() < 0.5:
+        if fn != "MapReduceVoid" and rng.random() < 0.4:
+            rafter.insert(0, _w(7))                # reducer writes, then panics
+    elif rng.random() < 0.6:
         if fn != "MapReduceVoid" and rng.random() < 0.6:
             rafter = [_w(7)]                       # consume all, then write: the panic is delivered before
+            if rng.random() < 0.4:
+                rtake = rng.randint(0, 2)          # value handed over early, panic later: re-raised since e753473
         else:
             rtake = rng.randint(0, 2)              # stop early, no write
     return _case(rng, fn=fn, workers=_workers(rng), items=items, gpanic=gpanic, rtake=rtake, rafter=rafter, cls="panic")
@@ -455,11 +457,6 @@ def classify(case, obs):
         rds = sum(1 for e in tr if e[0] == "rd")
         if len(rws) == rds + 1 and case["ctx"] != "pre" and not any(e[0] in ("ce", "cx") for e in tr[:rws[-1]]):
             cand = ("send_on_closed", "spec_wo_outcome")
-    elif kind in ("ret", "twice") and case["ctx"] == "none" and "cancel" not in acts and "cancelnil" not in acts:
-        first_p = next((i for i, e in enumerate(tr) if e[0] in ("pn", "gp", "rp")), None)
-        ret = next((i for i, e in enumerate(tr) if e[0] == "ret"), len(tr))
-        if first_p is not None and first_p < ret and any(e[0] == "rw" for e in tr[:first_p]):
-            cand = ("reducer_write_then_panic", "spec_wo_panic")
     elif case["ctx"] == "pre" and kind in ("nooutput", "nil"):
         cand = ("ctx_select_race", "spec_wo_ctx")
     if cand and _only_failure(case, obs, cand[1]):
